@@ -64,6 +64,7 @@ type c06Interp struct {
 	caseOps  []string
 	latent   bool // the case is outside the rank bound on purpose
 	pairs    int
+	nviol    map[string]int
 	hookSeed atomic.Uint64
 	hookMode atomic.Int32 // 0 none, 1 lazy, 2 eager, 3 rand
 	hookCtr  atomic.Uint64
@@ -219,6 +220,10 @@ func (in *c06Interp) report(kind string, addr uint64, what string, last string) 
 	}
 	p := verifC06Params
 	in.s.Count("oracle-violation-" + kind)
+	in.nviol[kind]++
+	if in.nviol[kind] > 3 {
+		return // counted; the first three of a kind carry a replay
+	}
 	in.s.Violation(fmt.Sprintf("address index does not return the pushes of an address newest first: %s (case %q, address %d, itemsPerBatch=%d)",
 		what, in.caseName, addr, p.B), "C06:writer:"+kind, in.replay())
 }
@@ -745,9 +750,13 @@ func (g *c06Gen) real(thorough bool, s *zz.Session) {
 		}
 		g.finish(sample, 2)
 	}
+	// separate writers, one address each, at the boundary counts (Close timing differs from the shared writer)
+	singles := []uint64{B}
 	if thorough {
-		// several writers, one address each, at the boundary counts (Close timing differs from the shared writer)
-		for i, n := range []uint64{B, B + 1, 2 * B} {
+		singles = []uint64{B, B + 1, 2 * B, 1, B - 1}
+	}
+	{
+		for i, n := range singles {
 			g.begin(fmt.Sprintf("real-single n=%d", n), g.sched(i))
 			for j := uint64(0); j < n; j++ {
 				g.push(2*j+1, 77)
@@ -765,7 +774,7 @@ func c06Run(t *testing.T, gen func(g *c06Gen, s *zz.Session)) {
 		t.Fatal(err)
 	}
 	defer os.RemoveAll(root)
-	in := &c06Interp{s: s, root: root}
+	in := &c06Interp{s: s, root: root, nviol: map[string]int{}}
 	verifC06SetHook(in.hook)
 	defer verifC06SetHook(func(string) {})
 	p := verifC06Params
@@ -790,6 +799,18 @@ func c06Run(t *testing.T, gen func(g *c06Gen, s *zz.Session)) {
 			if l = strings.TrimSpace(l); l != "" && !strings.HasPrefix(l, "#") {
 				ops = append(ops, l)
 			}
+		}
+		// a replay file belongs to the run whose thresholds it names (the other C06 runs skip it)
+		mine := false
+		for _, l := range ops {
+			if strings.HasPrefix(l, "params ") {
+				mine = l == fmt.Sprintf("params %d %d %d %d %d %d %d", p.B, p.P, p.C, p.K, p.M, p.T, p.R)
+				break
+			}
+		}
+		if !mine {
+			s.Count("replay-file-of-another-run-skipped")
+			ops = nil
 		}
 	} else {
 		g := &c06Gen{rng: zz.NewRNG(zz.Seed())}
